@@ -387,6 +387,23 @@ func (i *interpreter) symStrSlice(x symStr, lo, hi value) value {
 		}
 		return strValue(mkConcat(rest...))
 	}
+	if hs, ok := i.ps.resolveValue(hi).(symInt); ok && hs.t.Op == "int2bv" && l == 0 {
+		// s[:n] with n = (an integer expression over string lengths): split s
+		// into a fresh prefix of that length and a rest (definitional
+		// constraints on the path), after deciding that n is within bounds
+		n := hs.t.Args[0]
+		within := mkAnd(
+			&Term{Op: ">=", Args: []*Term{n, mkIntC(0)}, Sort: sortBool},
+			&Term{Op: "<=", Args: []*Term{n, mkStrLen(x.t)}, Sort: sortBool})
+		if !i.ps.decideBool(within, "slice-bound") {
+			panic(boundsError("runtime error: slice bounds out of range [symbolic]"))
+		}
+		pre := mkVar(i.ps.freshName("slicepre"), sortStr)
+		rest := mkVar(i.ps.freshName("slicerest"), sortStr)
+		i.ps.assertPC(mkEq(x.t, mkConcat(pre, rest)))
+		i.ps.assertPC(mkEq(mkStrLen(pre), n))
+		return strValue(pre)
+	}
 	h := asInt64(i.concrete(hi, "string slice high bound"))
 	// [l:h] must lie within the leading constant parts
 	var lead strings.Builder
